@@ -64,6 +64,7 @@ package pipeline
 //verif:ensures[all-or-nothing-config] err != nil && has(s.instances, pipelineID) ==> sameRest(s, pipelineID)
 
 //verif:func (*Service).Update(s, ctx, pipelineID, cfg) (inst, err)
+//verif:ensures[name-index-follows-rename] err == nil && old(has(s.instances, pipelineID)) ==> has(s.instanceNames, cfg.Name) && (old(s.instances[pipelineID].Config.Name) != cfg.Name ==> !has(s.instanceNames, old(s.instances[pipelineID].Config.Name)))
 //verif:assume s.instanceNames != nil because "NewService allocates the name index"
 //verif:ensures[all-or-nothing-connectors] err != nil && has(s.instances, pipelineID) ==> sameConns(s, pipelineID)
 //verif:ensures[all-or-nothing-processors] err != nil && has(s.instances, pipelineID) ==> sameProcs(s, pipelineID)
